@@ -166,3 +166,31 @@ def select_version(ctx):
     ctx.prove(Implies(p, And(v.sym_eq(want) if hasattr(v, 'sym_eq') else False, Implies(enabled_y, y <= S(c_en - 1)))), 'C17:O17.2.entry-is-greatest-enabled-version')
     oth = [(pp, kk, vv) for pp, kk, vv in c.entries if kk != key]
     ctx.prove(len(oth) == 1 and oth[0][0] is other[0] and oth[0][2] is other[2], 'C17:O17.2.other-functions-untouched')
+
+
+@unit(name='getFuncName', relpath=MOD, qual=['SyncObj._getFuncName'], props=['C17', 'C11'],
+      doc='O17.7 (lookup): _getFuncName(name) is the entry of the version name table for that name; a method that has no implementation at or below the '
+          'enabled version has no entry and the call is refused with KeyError at the call site - nothing is submitted, so no replica ever executes an '
+          'implementation above the enabled version')
+def get_func_name_unit(ctx):
+    mod = source.load(MOD)
+    fn, ci = mod.find('SyncObj._getFuncName')
+    if fn is None:
+        raise Undecided('SyncObj._getFuncName not found')
+    has = FreshBool('hasImplementationAtOrBelowEnabledVersion')
+    val = StrCat(('incr_v', StrOf(FreshInt('version'))))
+    table = ctx.alloc(KVDict([(has, 'incr', val), (FreshBool('otherPresent'), 'other', 'other_v0')]))
+    obj = ctx.alloc(PObj('SyncObj', {TABLE: table}))
+    I = Interp(ctx)
+    I.cur_mod = mod
+    try:
+        r = I.call_funcdef(fn, mod, 'SyncObj', obj, ['incr'], {}, None, 'SyncObj._getFuncName')
+        outcome = 'ok'
+    except PyExc as e:
+        r, outcome = None, e.typ
+    if outcome == 'ok':
+        ctx.prove(has, 'C17+C11:O17.7.method-unknown-at-this-version-is-refused', info=repr(r))
+        ctx.prove(r is val, 'C17:O17.7.lookup-returns-the-table-entry', info=repr(r))
+    else:
+        ctx.prove(outcome == 'KeyError' and Not(has) is not False, 'C17:O17.7.only-KeyError-and-only-when-absent', info=outcome)
+        ctx.prove(Not(has), 'C17:O17.7.only-KeyError-and-only-when-absent')
